@@ -178,8 +178,11 @@ class External:
     """Assumed contract of a callee outside the verified world: returns a fresh value of `returns`,
     may raise any of `raises` (nondeterministically), has no file-system effect unless `effect`."""
     def __init__(self, returns: T = None, raises: Optional[list[str]] = None, effect: Optional[str] = None,
-                 pure: bool = False, ensures: Optional[Callable] = None) -> None:
+                 pure: bool = False, ensures: Optional[Callable] = None, over_contract_params: bool = False) -> None:
         self.ensures = ensures    # spec function (self/args..., result) assumed of the fresh result
+        # True: `ensures` names the (ghost) parameters of the contract under verification and `result`
+        # instead of the callee's own arguments
+        self.over_contract_params = over_contract_params
         self.returns = returns
         self.raises = raises or []
         self.effect = effect
